@@ -39,6 +39,15 @@ fn all_constructs() -> Vec<Expr> {
     for a in [Action::Ls, Action::Fls(s()), Action::Prune] {
         v.push(Expr::Action(a));
     }
+    // destinations a find implementation may single out must not hide an unsupported construct
+    for d in ["/dev/null", "/dev/stdout", "/dev/stderr", "-"] {
+        v.push(Expr::Action(Action::Fls(d.into())));
+        for f in [Field::Depth, Field::TypeSymlink, Field::PermSymbolic] {
+            v.push(Expr::Action(Action::FPrintf(d.into(), vec![Fmt::Field(f), Fmt::Special(Special::Newline)])));
+        }
+        v.push(Expr::Action(Action::FPrintf(d.into(), vec![Fmt::Field(Field::Name), Fmt::Special(Special::Newline)])));
+        v.push(Expr::Action(Action::FPrint(d.into())));
+    }
     let nl = Fmt::Special(Special::Newline);
     for f in all_fields() {
         v.push(Expr::Action(Action::Printf(vec![Fmt::Field(f.clone()), nl.clone()])));
@@ -133,6 +142,9 @@ fn has_clear(e: &Expr) -> bool {
 }
 
 pub fn check(tree: &Expr, acc: &mut Acc) {
+    if tree.depth() > 20 {
+        speclib::report::enter_case(|| format!("tree of depth {} with {} leaves: {}…", tree.depth(), tree.leaves(), tree.show().chars().take(120).collect::<String>()));
+    }
     acc.states += 1;
     acc.transitions += 1;
     acc.validated += 1;
@@ -145,6 +157,22 @@ pub fn check(tree: &Expr, acc: &mut Acc) {
         }
     };
     let bad = inexpressible(tree);
+    // neither -depth nor a thread count changes what the target can express
+    let base_refused = matches!(compile_render(&real, &subject::options(false, None), "/dev"), C::Err(_));
+    for (d, th) in [(true, None), (true, Some(1u32)), (false, Some(4))] {
+        let alt = compile_render(&real, &subject::options(d, th), "/dev");
+        let refused = matches!(alt, C::Err(_));
+        // (a format with \\c may be refused or not — but then under every option alike)
+        let expected_refused = if has_clear(tree) && bad.is_empty() { base_refused } else { !bad.is_empty() };
+        if !matches!(alt, C::Panic(_)) && refused != expected_refused {
+            acc.violate(Violation::new(
+                if refused { "C12:supported-expression-refused:with-run-options".to_string() } else { format!("C12:inexpressible-construct-compiled:{}:with-run-options", bad[0]) },
+                format!("compile({}) with options depth={d} threads={th:?} {} although the tree {}", tree.show(), if refused { "fails" } else { "succeeds" }, if bad.is_empty() { "is expressible".to_string() } else { format!("contains {bad:?}") }),
+                json!({"kind": "tree", "tree": tree, "depth": d, "threads": th}),
+            ));
+            return;
+        }
+    }
     let res = compile_render(&real, &subject::options(false, None), "/dev");
     // the answer must not depend on having been asked before (same thread, same tree)
     let again = compile_render(&real, &subject::options(false, None), "/dev");
